@@ -703,6 +703,35 @@ def mutation_stream(run, drv, ask):
             run.oracle_ok("sequence_mutation")
 
 
+def mappings_oracle(run):
+    """the positive mappings of tensordict/nn/utils.py used to build distribution parameters: defining identities"""
+    import torch
+    from tensordict.nn.utils import biased_softplus, expln, inv_softplus, mappings
+    x = torch.linspace(-6, 6, 49, dtype=torch.float64)
+    checks = []
+    sp = torch.nn.functional.softplus
+    checks.append(("inv_softplus(softplus(x)) == x", torch.allclose(inv_softplus(sp(x)), x, atol=1e-5)))
+    for bias, mn in ((1.0, 0.01), (2.5, 0.1), (0.3, 0.05)):
+        f = biased_softplus(bias, mn)
+        y = f(x)
+        checks.append((f"biased_softplus({bias},{mn})(0) == bias", abs(float(f(torch.zeros((), dtype=torch.float64))) - bias) < 1e-5))
+        checks.append((f"biased_softplus({bias},{mn}) >= min_val, increasing", bool((y >= mn).all()) and bool((y[1:] > y[:-1]).all())))
+        g = mappings(f"biased_softplus_{bias}_{mn}")
+        checks.append((f"mappings('biased_softplus_{bias}_{mn}') is that function", torch.allclose(g(x), y)))
+    checks.append(("mappings('biased_softplus_2.0')(0) == 2", abs(float(mappings("biased_softplus_2.0")(torch.zeros(()))) - 2.0) < 1e-5))
+    e = expln(x)
+    want = torch.where(x <= 0, x.exp(), x.clamp_min(0).log1p() + 1)
+    checks.append(("expln = exp on x<=0, 1+log1p on x>0, positive, increasing", torch.allclose(e, want) and bool((e > 0).all()) and bool((e[1:] > e[:-1]).all())))
+    for name, ref in (("softplus", sp), ("exp", torch.exp), ("relu", torch.relu), ("none", lambda t: t), ("expln", expln)):
+        checks.append((f"mappings('{name}')", torch.allclose(mappings(name)(x), ref(x))))
+    for what, ok in checks:
+        run.case(("mappings", what))
+        if ok:
+            run.oracle_ok("mappings")
+        else:
+            run.oracle_fail("mappings", ["mappings", what], "identity does not hold: " + what, "mappings:" + what.split("(")[0].strip())
+
+
 def run_more(run, drv, ask):
     selftest(run)
     batched_oracle(run)
@@ -713,5 +742,6 @@ def run_more(run, drv, ask):
     options_stream(run, drv, ask)
     nested_select_stream(run, drv, ask)
     mutation_stream(run, drv, ask)
+    mappings_oracle(run)
     import c14_prob
     c14_prob.run_prob(run, drv, ask)
